@@ -1,5 +1,7 @@
 """C13 — single-precision floating-point blocks meet IEEE-754 within stated error bounds.
 Proof : Properties/C13.v over the word-level datapath model coq/Model/Fp.v (hand-written, every wire width of the real circuits).
+Probe : two widths of the model are parameters read off the live circuit (FPAdder_SP ediff width, FPtoInt_SP p_lost range); the real blocks are
+        tied to that instance, and the full-strength theorems are statements about it only for ediff >= 8 bits and Range(shifted, 31, 0).
 Tie   : (T-corr) the Coq model is evaluated by vm_compute on structured operands and compared bit-exactly with the REAL blocks
         (FPComparator_SP plain/absolute, FPAdder_SP, FPMult_SP, InttoFP_SP, FPtoInt_SP; each elaborated once, inputs re-poked).
 Oracle/search: the REAL blocks against exact rational arithmetic (fractions.Fraction) on every generated operand: exponent-pair grid x
@@ -156,14 +158,13 @@ def attribute(kind, x, y, o):
     if kind == 'add':
         ea, eb = L.fields(x)[1], L.fields(y)[1]
         gap = abs(ea - eb)
-        if gap % 32 != gap and L.m_add(x, y) == o[0] and L.spec_add_ok(x, y, L.m_add(x, y, ediff_bits=8)) \
-                and L.m_add(y, x) == L.m_add(x, y):
+        if gap % 32 != gap and L.m_add(x, y, ediff_bits=5) == o[0] and L.spec_add_ok(x, y, L.m_add(x, y, ediff_bits=8)):
             return KF_ADD
     if kind == 'f2i':
         er, epl, einv = L.spec_f2i(x)
         v = L.val(x)
         if (not einv) and v.denominator == 1 and v.numerator % 2 == 1 and o == (er, 1, 0, 0) and epl == 0 \
-                and L.m_f2i(x) == o and L.m_f2i(x, 31) == (er, epl, 0, einv):
+                and L.m_f2i(x, 32) == o and L.m_f2i(x, 31) == (er, epl, 0, einv):
             return KF_F2I
     return None
 
@@ -215,7 +216,7 @@ def report_failure(ctx, first):
 # ------------------------------------------------------------------ the tie: Coq model vs real blocks, compared inside Coq
 def b(v): return 'true' if v else 'false'
 
-def tie(ctx, results, limit):
+def tie(ctx, results, limit, widths):
     """results: {kind: [(x, y, outputs)]}; evaluates Model/Fp.v on a structured subset and returns the list of mismatches"""
     items = []
     picked = {}
@@ -232,32 +233,21 @@ def tie(ctx, results, limit):
             term = ("filter (fun t => let '(a, b0, r) := t in negb (fpmul a b0 =? r)) [%s]"
                     % '; '.join('(%d, %d, %d)' % (x, y, o[0]) for x, y, o in sub))
         elif kind == 'add':
-            # hard mismatch: neither the circuit model nor the repaired datapath (8-bit ediff, proved total: fpadd_wide_ediff_total);
-            # soft: the real block behaves like the repaired datapath (the recorded defect has been fixed in /repo)
-            term = ("let l := [%s] in "
-                    "(filter (fun t => let '(a, b0, r) := t in negb (fpadd a b0 =? r) && negb (fpadd_wide a b0 =? r)) l, "
-                    "length (filter (fun t => let '(a, b0, r) := t in negb (fpadd a b0 =? r) && (fpadd_wide a b0 =? r)) l))"
+            term = ("filter (fun t => let '(a, b0, r) := t in negb (fpadd_w %d a b0 =? r)) [%%s]" % widths['ew']
                     % '; '.join('(%d, %d, %d)' % (x, y, o[0]) for x, y, o in sub))
         elif kind == 'i2f':
             term = ("filter (fun t => let '(a, r, p) := t in let '(r2, p2) := int2fp a in negb ((r =? r2) && Bool.eqb p p2)) [%s]"
                     % '; '.join('(%d, %d, %s)' % (x, o[0], b(o[1])) for x, y, o in sub))
         elif kind == 'f2i':
-            eqf = ("(fun (g : Z -> Z * bool * bool * bool) t => let '(a, r, p, d, i) := t in let '(r2, p2, d2, i2) := g a in "
-                   "(r =? r2) && Bool.eqb p p2 && Bool.eqb d d2 && Bool.eqb i i2)")
-            term = ("let l := [%s] in let same := %s in "
-                    "(filter (fun t => negb (same fp2int t) && negb (same (fp2int_gen 31) t)) l, "
-                    "length (filter (fun t => negb (same fp2int t) && same (fp2int_gen 31) t) l))"
-                    % ('; '.join('(%d, %d, %s, %s, %s)' % (x, o[0], b(o[1]), b(o[2]), b(o[3])) for x, y, o in sub), eqf))
+            term = ("filter (fun t => let '(a, r, p, d, i) := t in let '(r2, p2, d2, i2) := fp2int_gen %d a in "
+                    "negb ((r =? r2) && Bool.eqb p p2 && Bool.eqb d d2 && Bool.eqb i i2)) [%%s]" % widths['hi']
+                    % '; '.join('(%d, %d, %s, %s, %s)' % (x, o[0], b(o[1]), b(o[2]), b(o[3])) for x, y, o in sub))
         items.append((kind, term))
     mism = {}
     # a single case file: the build lock is taken once
     res = common.coq_eval('C13_tie', 'From V Require Import Base.Bits Model.Fp.\n', items, timeout=1500)
     for kind, _ in items:
         v = res[kind]
-        if isinstance(v, tuple):                       # (hard mismatches, number of cases that match the repaired datapath instead)
-            hard, soft = v
-            if soft: ctx.notes.setdefault('impl_matches_repaired_datapath', {})[kind] = soft
-            v = hard
         if v:
             mism[kind] = v[:5]
         ctx.notes.setdefault('tie_cases', {})[kind] = len(picked[kind])
@@ -265,14 +255,21 @@ def tie(ctx, results, limit):
 
 
 def witnesses(ctx, B):
-    """the two refutation witnesses of Properties/C13.v, replayed on the REAL blocks on every run"""
+    """the operands of the two history Examples of Properties/C13.v (the defects /repo had before 150f909 / 48843fa), run on the REAL
+    blocks on every run; informational (the sweep judges them like any other operand)"""
     out = {}
     x, y = L.pack(0, 127 + 40, 0), L.pack(0, 127 + 8, 0)
-    out['fpadd_refuted'] = {'a': hex(x), 'b': hex(y), 'impl': hex(B.ev('add', x, y)[0]), 'exact': '2**40 + 2**8', 'impl_value': str(L.val(B.ev('add', x, y)[0]))}
+    out['fpadd 2^40 + 2^8 (gap 32)'] = {'a': hex(x), 'b': hex(y), 'impl': hex(B.ev('add', x, y)[0]), 'impl_value': str(L.val(B.ev('add', x, y)[0])),
+                                         'before_150f909': '0x54000000 (2^41)'}
     one = L.pack(0, 127, 0)
-    out['fp2int_plost_refuted'] = {'a': hex(one), 'impl(r,p_lost,denorm,invalid)': list(B.ev('f2i', one)), 'exact': '1.0 is an integer: nothing discarded'}
-    ctx.notes['refutation_witnesses_on_real_blocks'] = out
+    out['fp2int 1.0'] = {'a': hex(one), 'impl(r,p_lost,denorm,invalid)': list(B.ev('f2i', one)), 'before_48843fa': [1, 1, 0, 0]}
+    ctx.notes['history_witnesses_on_real_blocks'] = out
     return out
+
+
+# theorems of Properties/C13.v that speak about a probed width, and the probe values for which they are statements about the tied instance
+ADD_THEOREMS = ['fpadd_bound', 'fpadd_w_bound', 'fpadd_comm']
+F2I_THEOREMS = ['fp2int_trunc', 'fp2int_invalid', 'fp2int_plost']
 
 
 def run(ctx):
@@ -291,6 +288,21 @@ def run(ctx):
                                'coq/Spec/C13.v: the meaning of the claims on scaled integers (Qval_sval proves val = sval / 2^150)',
                                'py harness driving the real py4hw blocks, the fractions.Fraction oracle, coq/Cases/*.v generation and parsing']
     B = L.Blocks()
+    # ---- probe: which instance of the model is the live circuit?
+    pr = B.probe()
+    ew, hi = pr.get('ediff_width'), pr.get('plost_range_high')
+    ctx.notes['probe'] = pr
+    widths = {'ew': ew if isinstance(ew, int) and 1 <= ew <= 64 else 8, 'hi': hi if isinstance(hi, int) and 0 <= hi <= 63 else 31}
+    not_applicable = {}
+    if not (isinstance(ew, int) and ew >= 8):
+        not_applicable.update({t: 'FPAdder_SP ediff width probed as %r: the full-strength adder theorems need >= 8 bits (fpadd_w_gap_bound only covers gaps < 2^ew)' % (ew,)
+                               for t in ADD_THEOREMS})
+    if hi != 31:
+        not_applicable.update({t: 'FPtoInt_SP p_lost range probed as (%r, 0): the theorems are about Range(shifted, 31, 0)' % (hi,) for t in F2I_THEOREMS})
+    if not_applicable:
+        ctx.notes['obligations_not_applicable_to_the_live_circuit'] = not_applicable
+        ctx.cov['discharged'] = max(0, ctx.cov['discharged'] - len(not_applicable))
+    oblig_ok = r['ok'] and not not_applicable
     rng = random.Random(ctx.seed)
     stats = {'evaluated': {}, 'failures': {}, 'known': {}}
     results = {}
@@ -310,21 +322,23 @@ def run(ctx):
     ctx.notes['sweep'] = stats
     wit = witnesses(ctx, B)
     for f in firsts[:3]:
+        if not_applicable: f = dict(f, broken_obligation=not_applicable)
         report_failure(ctx, f)
     # tie
     mism = {}
     try:
-        mism = tie(ctx, results, tie_limit + 500)
+        mism = tie(ctx, results, tie_limit + 500, widths)
     except RuntimeError as ex:
         mism = {'coq_eval': str(ex)[-1500:]}
     ctx.notes['tie_mismatches'] = mism
     tie_ok = not mism
-    ctx.log('proof ok=%s  tie ok=%s' % (r['ok'], tie_ok))
-    if (not r['ok'] or not tie_ok) and not firsts:
+    ctx.log('proof ok=%s  probe=%s obligations apply=%s  tie ok=%s' % (r['ok'], widths, not not_applicable, tie_ok))
+    if (not oblig_ok or not tie_ok) and not firsts:
         # obligation or tie broken and the sweep above found no failing input: widen the search (fresh seed, thorough generators, time budget)
         deadline = time.time() + (60 if ctx.quick else 600)
         rng2 = random.Random(ctx.seed * 7919 + 1)
-        kinds = list(mism.keys() & BLOCK_ID.keys()) or list(BLOCK_ID)
+        kinds = list(mism.keys() & BLOCK_ID.keys()) or ((['add'] if any(t in not_applicable for t in ADD_THEOREMS) else []) +
+                                                         (['f2i'] if any(t in not_applicable for t in F2I_THEOREMS) else [])) or list(BLOCK_ID)
         found = None
         pairs2 = gen_pairs(rng2, True, None); rng2.shuffle(pairs2)
         for kind in kinds:
@@ -332,9 +346,11 @@ def run(ctx):
             _, first = sweep(ctx, B, kind, cases, stats, deadline=time.time() + (deadline - time.time()) / max(1, len(kinds)))
             if first: found = first; break
         if found:
+            if not_applicable: found = dict(found, broken_obligation=not_applicable)
             report_failure(ctx, found)
         else:
             what = ('proof obligation no longer checks: %s in %s' % (r.get('lemma'), r.get('file')) if not r['ok'] else
+                    'no full-strength theorem for the instance the probe selected: %s' % not_applicable if not_applicable else
                     'the word-level model Model/Fp.v and the real blocks disagree (correspondence broken): %s' % mism)
             ctx.violation({'what': what, 'theorem': r.get('lemma'), 'file': r.get('file'), 'coq_error': r.get('msg'), 'tie_mismatches(first few)': mism},
                           found_input=False)
